@@ -350,8 +350,10 @@ class Connection(Stateful):
             self.heartbeat.register_read()
             if channel_id == 0:
                 self._channel0.on_frame(frame_in)
-            elif channel_id in self._channels:
-                self._channels[channel_id].on_frame(frame_in)
+                continue
+            channel = self._channels.get(channel_id)
+            if channel is not None:
+                channel.on_frame(frame_in)
 
         return data_in
 
